@@ -35,6 +35,17 @@ for i = 1, 2, 1.1 do
 end
 --> =float
 
+-- The loop continues only while the value is <= the limit: a NaN limit or a
+-- NaN loop value ends it.
+print(countsteps(1.0, 0/0) <= 1)
+--> =true
+
+print(countsteps(math.huge, 0, -math.huge))
+--> =1
+
+print(countsteps(1.0, 10, 0/0) <= 1)
+--> =true
+
 print(pcall(function() for i = 1, 1, 0 do end end))
 --> ~false\t.*'for' step is zero
 
